@@ -87,7 +87,7 @@ RootState ==
 C(k, t, p, i, q, v) == [k |-> k, t |-> t, p |-> p, i |-> i, q |-> q, v |-> v]
 InvRef == IF Honest THEN InvSet ELSE InvSet \cup {"bogus"}
 ReqRef == IF Honest THEN Accounts ELSE Accounts \cup {"bogus"}
-RotV   == IF Honest THEN {"exact"} ELSE {"exact", "minus", "plus", "noinv", "plusinv", "noold"}
+RotV   == IF Honest THEN {"exact"} ELSE {"exact", "minus", "plus", "swap", "noinv", "plusinv", "swapinv", "noold"}
 JoinV  == IF Honest THEN {"ok"} ELSE {"ok", "badident", "badsig"}
 IJoinV == IF Honest THEN {"ok"} ELSE {"ok", "badident", "badsig", "nokey"}
 AccV   == IF Honest THEN {"match"} ELSE {"match", "mismatch"}
@@ -120,6 +120,8 @@ Rcp(x, R, v) ==        \* R = accounts removed by the same content
       extraI == FirstInv(InvSet \ exI)
   IN CASE v = "minus"   -> [A |-> exA \ {First(exA)}, I |-> exI]
        [] v = "plus"    -> [A |-> IF extra = "-" THEN exA ELSE exA \cup {extra}, I |-> exI]
+       [] v = "swap"    -> [A |-> IF extra = "-" \/ exA = {} THEN exA ELSE (exA \ {First(exA)}) \cup {extra}, I |-> exI]
+       [] v = "swapinv" -> [A |-> exA, I |-> IF extraI = "-" \/ exI = {} THEN exI ELSE (exI \ {FirstInv(exI)}) \cup {extraI}]
        [] v = "noinv"   -> [A |-> exA, I |-> exI \ {FirstInv(exI)}]
        [] v = "plusinv" -> [A |-> exA, I |-> IF extraI = "-" THEN exI ELSE exI \cup {extraI}]
        [] OTHER         -> [A |-> exA, I |-> exI]
